@@ -13,7 +13,7 @@ from vmm.ref import searchlib as L
 ID = 'C12'
 RULE = ('Hypothesis base input as C01 (<=6 geos) x a drawn transformation: new row permutation, date shift by +-k days, all-digit '
         'IDs int <-> str, bijective renaming that reverses lexicographic order (frame and table alike), responses and budget '
-        'range scaled by 2^k (k in -8..8); both searches on base and transformed inputs, compared position by position up to '
+        'range scaled by 2^k (k in -45..45, no under- or overflow for the generated magnitudes); both searches on base and transformed inputs, compared position by position up to '
         'the renaming / scaling, tie-tolerant. Thorough tier: ~1.5% of the cases are re-run in a child process under a different '
         'PYTHONHASHSEED. Non-trivial = >=1 design returned by some search and the transformation is not the identity; distinct by spec hash.')
 BUDGET = {'quick': 320, 'thorough': 8000}
@@ -34,7 +34,7 @@ def _spec(draw, tier):
       'shift': draw(st.sampled_from([0, 0, 1, -1, 7, -7, 365, -400, 3])),
       'id_flip': draw(st.booleans()),
       'rename': draw(st.booleans()),
-      'k': draw(st.sampled_from([0, 0, 1, -1, 3, -3, 8, -8, 5])),
+      'k': draw(st.sampled_from([0, 0, 1, -1, 3, -3, 8, -8, 5, -20, 20, -45, 45, -33, 30])),
   }
   spec['child_hashseed'] = draw(st.integers(1, 4000)) if (tier == 'thorough' and draw(st.integers(0, 60)) == 0) else None
   return spec
